@@ -148,6 +148,75 @@ func (e *Engine) stub(fn *ssa.Function, args []any) (any, bool) {
 		return SymBool{"(str.contains " + strE(args[0]) + " " + strE(args[1]) + ")"}, true
 	case "strings.Index":
 		return SymInt{"(str.indexof " + strE(args[0]) + " " + strE(args[1]) + " 0)"}, true
+	case "bytes.Equal":
+		return SymBool{"(= " + bytesE(args[0]) + " " + bytesE(args[1]) + ")"}, true
+	case "strings.TrimLeft", "strings.TrimRight":
+		// cutset semantics, for a concrete cutset: the result is what remains after the longest prefix (suffix) made
+		// of cutset characters: s = pre ++ r, pre in cutset*, r empty or not starting (ending) with a cutset character
+		cut, ok := args[1].(string)
+		if !ok {
+			return nil, false
+		}
+		if sc, isC := args[0].(string); isC {
+			if name == "strings.TrimLeft" {
+				return strings.TrimLeft(sc, cut), true
+			}
+			return strings.TrimRight(sc, cut), true
+		}
+		if cut == "" {
+			return args[0], true
+		}
+		var chars []string
+		seen := map[byte]bool{}
+		for _, c := range []byte(cut) {
+			if c >= 0x80 {
+				return nil, false // non-ASCII cutset: runes, not encoded
+			}
+			if !seen[c] {
+				seen[c] = true
+				chars = append(chars, smtStr(string([]byte{c})))
+			}
+		}
+		// bounded unrolling (at most trimBound characters are stripped; more is reported as inconclusive): the result
+		// is an ite-chain over the position of the first character outside the cutset
+		const trimBound = 48
+		sx := strE(args[0])
+		at := func(i int) string {
+			if name == "strings.TrimLeft" {
+				return fmt.Sprintf("(str.at %s %d)", sx, i)
+			}
+			return fmt.Sprintf("(str.at %s (- (str.len %s) %d))", sx, sx, i+1)
+		}
+		inSet := func(i int) string {
+			var eqs []string
+			for _, c := range chars {
+				eqs = append(eqs, "(= "+at(i)+" "+c+")")
+			}
+			if len(eqs) == 1 {
+				return eqs[0]
+			}
+			return "(or " + strings.Join(eqs, " ") + ")"
+		}
+		rest := func(i int) string {
+			if name == "strings.TrimLeft" {
+				return fmt.Sprintf("(str.substr %s %d (- (str.len %s) %d))", sx, i, sx, i)
+			}
+			return fmt.Sprintf("(str.substr %s 0 (- (str.len %s) %d))", sx, sx, i)
+		}
+		all := make([]string, 0, trimBound)
+		ex := rest(trimBound)
+		for i := trimBound - 1; i >= 0; i-- {
+			ex = fmt.Sprintf("(ite %s %s %s)", inSet(i), ex, rest(i))
+		}
+		for i := 0; i < trimBound; i++ {
+			all = append(all, inSet(i))
+		}
+		if r := e.S.CheckWith("(and " + strings.Join(all, " ") + " " + inSet(trimBound) + ")"); r != "unsat" {
+			e.inconclusive = append(e.inconclusive, fmt.Sprintf("%s may strip more than %d characters: beyond the unrolling bound", name, trimBound))
+		}
+		r := e.freshSym("String", "trimmed")
+		e.S.Send("(assert (= " + r + " " + ex + "))")
+		return SymStr{r}, true
 	case "strings.TrimPrefix":
 		s, p := strE(args[0]), strE(args[1])
 		return SymStr{fmt.Sprintf("(ite (str.prefixof %s %s) (str.substr %s (str.len %s) (- (str.len %s) (str.len %s))) %s)", p, s, s, p, s, p, s)}, true
